@@ -55,7 +55,7 @@ inductive PState
   | utf8 (need : Nat) (acc : Nat)
 deriving DecidableEq, Repr, Inhabited
 
-structure VTState where
+@[ext] structure VTState where
   lines : Int
   cols : Int
   grid : Int → Int → Cell
@@ -316,8 +316,7 @@ def param (ps : List (List (Option Nat))) (i : Nat) : Option Nat :=
 def cnt (ps : List (List (Option Nat))) (i : Nat) : Int :=
   match param ps i with
   | none => 1
-  | some 0 => 1
-  | some k => ((k : Nat) : Int)
+  | some k => if k = 0 then 1 else ((k : Nat) : Int)
 
 def VTState.decset (vt : VTState) (modes : List (List (Option Nat))) (on : Bool) : VTState :=
   if modes.any (fun p => p.head? = some (some 69)) then
@@ -372,25 +371,48 @@ def CsiAcc.params (a : CsiAcc) : List (List (Option Nat)) := a.done ++ [a.sub ++
 
 def isDigit (b : UInt8) : Bool := 0x30 ≤ b ∧ b ≤ 0x39
 
+/-- Value of a digit string read left to right, starting from `acc`. -/
+def digitsValue (ds : List UInt8) (acc : Nat) : Nat := ds.foldl (fun a b => a * 10 + (b.toNat - 48)) acc
+
+/-- Reading a decimal number: digits only, at least one. -/
+def readNat (bs : List UInt8) : Option Nat :=
+  if bs ≠ [] ∧ bs.all isDigit then some (digitsValue bs 0) else none
+
+/-- Classes of bytes inside a control sequence (ECMA-48 §5.4). -/
+inductive BClass | digit | semi | colon | priv | inter | final | esc | cancel | other
+deriving DecidableEq, Repr
+
+def classify (b : UInt8) : BClass :=
+  if isDigit b then .digit
+  else if b = 0x3b then .semi
+  else if b = 0x3a then .colon
+  else if 0x3c ≤ b ∧ b ≤ 0x3f then .priv
+  else if 0x20 ≤ b ∧ b ≤ 0x2f then .inter
+  else if 0x40 ≤ b ∧ b ≤ 0x7e then .final
+  else if b = 0x1b then .esc
+  else if b = 0x18 ∨ b = 0x1a then .cancel
+  else .other
+
 /-- One byte inside a control sequence. -/
 def VTState.csiByte (vt : VTState) (a : CsiAcc) (b : UInt8) : VTState :=
-  if isDigit b then
+  match classify b with
+  | .digit =>
     if a.inter = [] then { vt with ps := .csi { a with cur := some (a.cur.getD 0 * 10 + (b.toNat - 48)) } }
     else { vt with ps := .csiIgnore }
-  else if b = 0x3b then
+  | .semi =>
     if a.inter = [] then { vt with ps := .csi { a with done := a.done ++ [a.sub ++ [a.cur]], sub := [], cur := none } }
     else { vt with ps := .csiIgnore }
-  else if b = 0x3a then
+  | .colon =>
     if a.inter = [] then { vt with ps := .csi { a with sub := a.sub ++ [a.cur], cur := none } }
     else { vt with ps := .csiIgnore }
-  else if 0x3c ≤ b ∧ b ≤ 0x3f then
+  | .priv =>
     if a = CsiAcc.empty then { vt with ps := .csi { a with priv := b } }
     else { vt with ps := .csiIgnore }
-  else if 0x20 ≤ b ∧ b ≤ 0x2f then { vt with ps := .csi { a with inter := a.inter ++ [b] } }
-  else if 0x40 ≤ b ∧ b ≤ 0x7e then ({ vt with ps := .ground } : VTState).dispatch a.priv a.params a.inter b
-  else if b = 0x1b then { vt with ps := .esc }
-  else if b = 0x18 ∨ b = 0x1a then { vt with ps := .ground }
-  else vt                                   -- other C0 controls inside a sequence: not emitted by the driver; ignored
+  | .inter => { vt with ps := .csi { a with inter := a.inter ++ [b] } }
+  | .final => ({ vt with ps := .ground } : VTState).dispatch a.priv a.params a.inter b
+  | .esc => { vt with ps := .esc }
+  | .cancel => { vt with ps := .ground }
+  | .other => vt                            -- other C0 controls inside a sequence: not emitted by the driver; ignored
 
 /-- One byte in the ground state. -/
 def VTState.groundByte (vt : VTState) (b : UInt8) : VTState :=
